@@ -35,6 +35,9 @@ def gen_script(rng, big=False):
     return rbytes(rng, n)
 
 
+from types import SimpleNamespace as _NS  # noqa: E402
+
+
 def gen_witness(rng, big=False):
     r = rng.random()
     if r < 0.35:
@@ -65,15 +68,27 @@ def gen_tx(rng, segwit=None, big=False, max_in=6, max_out=6):
         segwit = rng.random() < 0.5
     small = nin > 10 or nout > 10
     vin = []
+    pvin = []
     for _ in range(nin):
         ss = b"" if (segwit and rng.random() < 0.6) else (rbytes(rng, rng.randrange(3)) if small else gen_script(rng, big))
         w = (gen_witness(rng, big) if not small else ([b"\x01"] if rng.random() < 0.5 else [])) if segwit else []
-        vin.append(TransactionInput(rbytes(rng, 32), pick_u32(rng), Script(ss), pick_u32(rng), Witness(w)))
+        txid, n, seq = rbytes(rng, 32), pick_u32(rng), pick_u32(rng)
+        vin.append(TransactionInput(txid, n, Script(ss), seq, Witness(w)))
+        pvin.append(_NS(txid=txid, vout=n, script_sig=_NS(data=ss), sequence=seq, witness=_NS(items=list(w))))
     vout = []
+    pvout = []
     for _ in range(nout):
         sc = rbytes(rng, rng.randrange(3)) if small else gen_script(rng, big)
-        vout.append(TransactionOutput(pick_u64(rng), Script(sc)))
-    return Transaction(version=pick_u32(rng), vin=vin, vout=vout, locktime=pick_u32(rng))
+        val = pick_u64(rng)
+        vout.append(TransactionOutput(val, Script(sc)))
+        pvout.append(_NS(value=val, script_pubkey=_NS(data=sc)))
+    ver, lt = pick_u32(rng), pick_u32(rng)
+    tx = Transaction(version=ver, vin=vin, vout=vout, locktime=lt)
+    # the values the transaction was generated from, kept apart from embit's objects: tx_tokens / wire_of work on it
+    # too, so that what a constructor or parser does to a field is compared with the field, not with itself
+    tx.plain = _NS(version=ver, locktime=lt, vin=pvin, vout=pvout,
+                   is_segwit=any(len(i.witness.items) > 0 for i in pvin))
+    return tx
 
 
 def tx_tokens(tx):
